@@ -171,12 +171,12 @@ static void print_ex(flatcc_json_printer_t *ctx, const char *s, size_t n)
     if (ctx->p >= ctx->pflush) {
         ctx->flush(ctx, 0);
     }
+    if (ctx->flush_size == 0) {
+        /* A fixed buffer no larger than the reserve: flushing never makes room; overflow has been raised. */
+        return;
+    }
     k = (size_t)(ctx->pflush - ctx->p);
     while (n > k) {
-        if (k == 0) {
-            /* Flushing made no room (a fixed buffer no larger than the reserve): overflow has been raised. */
-            return;
-        }
         memcpy(ctx->p, s, k);
         ctx->p += k;
         s += k;
@@ -321,8 +321,13 @@ static void print_uint8_vector_base64_object(flatcc_json_printer_t *ctx, const v
          */
         k = ((size_t)(ctx->pflush - ctx->p) + 3) & ~(size_t)3;
         if (k == 0) {
-            /* Flushing made no room (a fixed buffer no larger than the reserve): overflow has been raised. */
-            return;
+            if (ctx->flush_size == 0) {
+                /* A fixed buffer no larger than the reserve: flushing never makes room; overflow has been raised. */
+                return;
+            }
+            /* Exactly at the flush point: flush and retry. */
+            ctx->flush(ctx, 0);
+            continue;
         }
         if (k >= len) {
             /* What is left ends within the reserve. */
@@ -350,12 +355,12 @@ static void print_indent_ex(flatcc_json_printer_t *ctx, size_t n)
     if (ctx->p >= ctx->pflush) {
         ctx->flush(ctx, 0);
     }
+    if (ctx->flush_size == 0) {
+        /* A fixed buffer no larger than the reserve: flushing never makes room; overflow has been raised. */
+        return;
+    }
     k = (size_t)(ctx->pflush - ctx->p);
     while (n > k) {
-        if (k == 0) {
-            /* Flushing made no room (a fixed buffer no larger than the reserve): overflow has been raised. */
-            return;
-        }
         memset(ctx->p, ' ', k);
         ctx->p += k;
         n -= k;
